@@ -1,7 +1,7 @@
 (* C18 — property theorems.  Statements closed by [exact] + Print Assumptions. *)
 From Coq Require Import Ascii String.
-From Coq Require Import List ZArith Bool Arith Sorted.
-From Martian.C18 Require Import Gen_Shape Model Proofs Proofs_Validate Proofs_Loop.
+From Coq Require Import List ZArith Bool Arith Sorted Lia.
+From Martian.C18 Require Import Gen_Shape Model Proofs Proofs_Validate Proofs_Loop Proofs_Audit.
 Import ListNotations.
 Open Scope Z_scope.
 
@@ -251,6 +251,59 @@ Proof.
 Qed.
 Print Assumptions C18_close_releases_any_underlying_outcome.
 
+(* GetNextActionFromByte calls sort.Search (binary search); the model's loop uses the
+   linear first-match scan [search_ge]: on every list sorted by byte they agree, so
+   modelling sort.Search by the scan is a theorem, not an assumption *)
+Theorem C18_binary_search_refines : forall l start,
+  StronglySorted by_byte l -> bsearch_ge l start = search_ge l start 0.
+Proof. exact bsearch_ge_is_search_ge. Qed.
+Print Assumptions C18_binary_search_refines.
+
+Example C18_example_bsearch :
+  let l := [mkAct (KHalt 9) 3 1; mkAct (KBw 7) 4 (-1); mkAct KClose 5 1; mkAct KClose 5 0; mkAct (KHalt 1) 9 1] in
+  map (bsearch_ge l) [0; 3; 4; 5; 6; 9; 10] = [0; 0; 1; 2; 4; 4; 5]%nat /\
+  map (fun s => search_ge l s 0) [0; 3; 4; 5; 6; 9; 10] = [0; 0; 1; 2; 4; 4; 5]%nat.
+Proof. vm_compute. split; reflexivity. Qed.
+
+(* ---- throttles of an accepted shape (audit round) ---- *)
+
+(* what validation stores: separated throttles; for each its ChangeBandwidth(own
+   bandwidth) at its first byte and ChangeBandwidth(max/default) at its finite end
+   unless another throttle starts there; and no other bandwidth action *)
+Theorem C18_accepted_throttle_actions : forall sc sh, validate_shape sc = Some sh ->
+  separated (sh_thr sh) /\
+  (forall t, In t (sh_thr sh) -> In (bw_act (t_bw t) (t_start t)) (sh_acts sh)) /\
+  (forall t, In t (sh_thr sh) -> t_end t <> -1 -> (forall t', In t' (sh_thr sh) -> t_start t' <> t_end t) ->
+     In (bw_act (sh_maxbw sh) (t_end t)) (sh_acts sh)) /\
+  (forall a b, In a (sh_acts sh) -> kind a = KBw b ->
+     exists t, In t (sh_thr sh) /\ (a = bw_act (t_bw t) (t_start t) \/ (a = bw_act (sh_maxbw sh) (t_end t) /\ t_end t <> -1))).
+Proof. exact accepted_throttle_actions. Qed.
+Print Assumptions C18_accepted_throttle_actions.
+
+(* GetCurrentThrottle (search for the first start beyond the offset, look at the
+   previous throttle, -1 only honoured for the last) finds exactly the throttle
+   that contains the offset *)
+Theorem C18_current_throttle_refines : forall thr rs,
+  separated thr -> Sorted (le_key t_start) thr -> current_throttle true thr rs = throttle_at thr rs.
+Proof. exact current_throttle_is_throttle_at. Qed.
+Print Assumptions C18_current_throttle_refines.
+
+Theorem C18_range_start_inside_throttle : forall sc sh t rs hl lt i,
+  validate_shape sc = Some sh -> In t (sh_thr sh) -> contains t rs -> rs > -1 ->
+  snd (open_ctx true (sh_acts sh) (sh_thr sh) true rs hl lt i) = [SetBw (t_bw t)].
+Proof. exact range_start_inside_throttle. Qed.
+Print Assumptions C18_range_start_inside_throttle.
+
+Theorem C18_throttle_start_sets_bandwidth : forall sc sh t rs hl lt i g ws s' evs r,
+  validate_shape sc = Some sh -> In t (sh_thr sh) ->
+  0 <= hl -> rs > -1 -> (forall k, 0 < fst (g k) /\ 0 < snd (g k)) ->
+  run g (shaped_start (sh_acts sh) (sh_thr sh) rs hl lt i) ws = (s', evs, r) ->
+  rs <= t_start t -> hl + (t_start t - rs) < Zlength (emitted evs) ->
+  exists before after, evs = before ++ SetBw (t_bw t) :: after /\
+    Zlength (emitted before) = hl + (t_start t - rs).
+Proof. exact throttle_start_sets_bandwidth. Qed.
+Print Assumptions C18_throttle_start_sets_bandwidth.
+
 (* The oracles run on the real outputs are the statements. *)
 Theorem C18_oracle_prefix : forall data delivered closed,
   ok_prefix data delivered closed = true <->
@@ -280,6 +333,54 @@ Print Assumptions C18_oracle_rate.
 
 Definition payload (n : nat) : list ascii := map (fun i => ascii_of_nat (65 + i)) (seq 0 n).
 
+(* throttle_bandwidth clause: for the separated throttle list of an accepted shape, OK means
+   every throttle containing the chunk's offset has the observed capacity as its bandwidth *)
+Theorem C18_oracle_chunk_bw : forall thr o cap, separated thr ->
+  (ok_chunk_bw thr o cap = true <-> forall t, In t thr -> contains t o -> cap = t_bw t).
+Proof. exact ok_chunk_bw_iff. Qed.
+Print Assumptions C18_oracle_chunk_bw.
+
+Theorem C18_oracle_unshaped : forall data delivered cut,
+  ok_unshaped data delivered cut = true <-> cut = false /\ delivered = data.
+Proof. exact ok_unshaped_iff. Qed.
+Print Assumptions C18_oracle_unshaped.
+
+Theorem C18_oracle_total_delay : forall evs el,
+  ok_total_delay evs el = true <-> delays_before_last_byte evs <= el.
+Proof. exact ok_total_delay_iff. Qed.
+Print Assumptions C18_oracle_total_delay.
+
+(* ...where every Latency / Sleep before a delivered byte counts in full *)
+Theorem C18_delays_before_a_byte : forall pre x xs r,
+  Forall (fun e => match e with Sleep d | Latency d => 0 <= d | _ => True end) r ->
+  delays_all pre <= delays_before_last_byte (pre ++ Emit (x :: xs) :: r).
+Proof. exact delays_before_a_byte_ge. Qed.
+Print Assumptions C18_delays_before_a_byte.
+
+Theorem C18_oracle_accepted_wrongly : forall c code,
+  accepted_wrongly c code = true <->
+  code = 200 /\ (c = None \/ exists c', c = Some c' /\ validate c' = None).
+Proof. exact accepted_wrongly_iff. Qed.
+Print Assumptions C18_oracle_accepted_wrongly.
+
+Theorem C18_oracle_validity : forall l c k v, ok_validity l c k v = true <-> v = conn_valid l c k.
+Proof. exact ok_validity_iff. Qed.
+Print Assumptions C18_oracle_validity.
+
+Theorem C18_oracle_no_leak : forall n, ok_no_leak n = true <-> n <= 0.
+Proof. exact ok_no_leak_iff. Qed.
+Print Assumptions C18_oracle_no_leak.
+
+Theorem C18_oracle_grant : forall c b, ok_grant c b = true <-> c <= b.
+Proof. exact ok_grant_iff. Qed.
+Print Assumptions C18_oracle_grant.
+
+Theorem C18_bytes_inside : forall a b rs n, 0 <= n ->
+  0 <= bytes_inside a b rs n <= n /\
+  (a <= rs -> (b = -1 \/ rs + n <= b) -> bytes_inside a b rs n = n).
+Proof. exact bytes_inside_spec. Qed.
+Print Assumptions C18_bytes_inside.
+
 (* Non-vacuity: a head of 2 bytes, halt at 3, bandwidth change at 4, close at 5,
    range start 1, three writes, grants of 2 bytes. *)
 Example C18_example :
@@ -305,6 +406,39 @@ Proof.
   - split; [reflexivity|]. split; [|split; [reflexivity | intros; split; reflexivity]].
     constructor; [right; right; discriminate|]. constructor; [right; right; discriminate | constructor].
 Qed.
+
+(* non-vacuity of the throttle theorems: the accepted shape of C18_example_validate *)
+Definition has_bw_action (b at_ : Z) (l : list action) : bool :=
+  existsb (fun a => match kind a with KBw x => (x =? b) && (abyte a =? at_) | _ => false end) l.
+
+Example C18_example_throttles :
+  match validate_shape (mkSC (list_ascii_of_string "a") true 1000
+      [mkTC (list_ascii_of_string "1000-2000") 300; mkTC (list_ascii_of_string "500-1000") 100]
+      [mkHC 530 5 1] [mkCC 1078 1]) with
+  | Some sh =>
+      sh_thr sh = [mkThr 500 1000 100; mkThr 1000 2000 300] /\
+      throttle_at (sh_thr sh) 700 = Some 100 /\ throttle_at (sh_thr sh) 1000 = Some 300 /\ throttle_at (sh_thr sh) 2000 = None /\
+      current_throttle true (sh_thr sh) 1999 = Some 300 /\
+      ok_chunk_bw (sh_thr sh) 700 100 = true /\ ok_chunk_bw (sh_thr sh) 700 1000 = false /\
+      has_bw_action 100 500 (sh_acts sh) = true /\ has_bw_action 1000 2000 (sh_acts sh) = true /\
+      has_bw_action 1000 1000 (sh_acts sh) = false
+  | None => False
+  end.
+Proof. vm_compute. repeat split; reflexivity. Qed.
+
+Example C18_example_contains : contains (mkThr 500 1000 100) 700 /\ ~ contains (mkThr 500 1000 100) 1000 /\
+  separated [mkThr 500 1000 100; mkThr 1000 2000 300].
+Proof.
+  split; [unfold contains; simpl; lia|].
+  split; [intros C; unfold contains in C; simpl in C; destruct C as [_ [C|C]]; [exact (Z.lt_irrefl _ C) | discriminate C]|].
+  cbn [separated]. split; [|split; [constructor | exact I]].
+  constructor; [|constructor]. cbn [t_end t_start]. split; [discriminate | lia].
+Qed.
+
+Example C18_example_delays :
+  delays_before_last_byte [Latency 2; Emit [ascii_of_nat 65]; Sleep 3; Emit [ascii_of_nat 66]; Sleep 7] = 5000
+  /\ ok_total_delay [Latency 2; Emit [ascii_of_nat 65]; Sleep 3; Emit [ascii_of_nat 66]; Sleep 7] 4999 = false.
+Proof. vm_compute. split; reflexivity. Qed.
 
 Example C18_example_validate :
   match validate (mkCfg None [mkSC (list_ascii_of_string "a") true 1000
